@@ -80,3 +80,32 @@ Definition zeros (k : nat) : list Z := cells c_int (repeat 0%Z k).
 (* pre-consumed sources for the adaptor bands: kf items from the front and kb from the back *)
 Definition pre (kf kb : nat) (xs : list val) : it :=
   consume (repeat false kf ++ repeat true kb) (IList xs).
+
+(* ---- instruction scripts (X21): INext | INextBack | INth k | INthBack k --------------------------
+   at every point: hint, number of items plain iteration still yields, the item the instruction returns;
+   after the script: everything that is left, then count() and last() of the state after the script *)
+Fixpoint observe_x (mask : nat) (cs : list instr) (s : it) : list Z :=
+  hint_cells s ++ c_nat (length (drain s)) ++
+  match cs with
+  | [] => cells (cv mask) (drain s) ++ c_nat (fst (count_it s)) ++ c_opt (cv mask) (fst (last_it s)) ++ c_sep
+  | c :: r => let '(o, s') := exec c s in c_opt (cv mask) o ++ observe_x mask r s'
+  end.
+
+Definition obsx (mask : nat) (cs : list instr) (r : res it) : list Z :=
+  match r with Ok s => observe_x mask cs s | Panic k => c_panic k end.
+Definition obsx_ok (mask : nat) (cs : list instr) (s : it) : list Z := observe_x mask cs s.
+
+(* StepBy around a state: at every point of `steps` calls of next(): hint, remaining count, item; then the rest *)
+Definition sb_hint_cells (t : stepby) : list Z :=
+  c_nat (fst (sb_size_hint t)) ++ c_opt c_nat (snd (sb_size_hint t)).
+Fixpoint observe_sb (mask : nat) (steps : nat) (t : stepby) : list Z :=
+  sb_hint_cells t ++ c_nat (length (sb_drain t)) ++
+  match steps with
+  | O => cells (cv mask) (sb_drain t) ++ c_sep
+  | S k => let '(o, t') := sb_next t in c_opt (cv mask) o ++ observe_sb mask k t'
+  end.
+Definition obs_sb (mask : nat) (steps n : nat) (r : res it) : list Z :=
+  match r with
+  | Panic k => c_panic k
+  | Ok s => match step_by n s with Ok t => observe_sb mask steps t | Panic k => c_panic k end
+  end.
